@@ -19,6 +19,10 @@ func (c *FnCtx) specEnvAt(st *State, pos token.Pos) *Env {
 				if o := s.Lookup(name); o != nil {
 					if v, ok := o.(*types.Var); ok {
 						if val, ok := st.vars[v]; ok {
+							if c.boxed[v] {
+								// address-taken local: the variable lives in memory
+								return c.loadFrom(&Env{st: st, spec: true}, val.T, v.Type()), true
+							}
 							return val, true
 						}
 					}
@@ -324,6 +328,12 @@ func (c *FnCtx) specCall(env *Env, x *ast.CallExpr) Val {
 				fn = fmt.Sprintf("wrapS%d", bits)
 			}
 			return Val{T: app(fn, e.T), Typ: v.Typ}
+		case "same":
+			// same(a, b): identical representation (for strings: same bytes at the same address,
+			// which implies Go's ==, not the other way round)
+			a := c.eval(env, x.Args[0])
+			b := c.eval(env, x.Args[1])
+			return boolVal(eq(a.T, b.T))
 		case "allocated":
 			// allocated(a): the address lies below the allocation frontier of the current state
 			// (every pointer a Go program holds does)
